@@ -8,7 +8,9 @@ ENGINE = "xmlser"
 LEAN_TARGETS = ["H5V.Props.C17"]
 AUDIT_IMPORTS = ["H5V.Props.C17"]
 THEOREMS = ["H5V.Props.C17." + t for t in [
-]]
+    "C17_unescape_escape", "C17_escape_delimiters", "C17_text_roundtrip_partial", "C17_attr_roundtrip_partial",
+    "C17_witness_cr", "C17_roundtrip_partial", "C17_witness_attr_prefix", "C17_witness_default_undeclared",
+    "C17_witness_sibling_leak", "C17_witness_item14", "C17_witness_uri_unescaped", "C17_fixed_examples"]]
 TRUSTED = [
     "Lean 4 kernel; axioms ⊆ {propext, Classical.choice, Quot.sound} (audited per run)",
     "hand-written model lean/H5V/Model/XmlSer.lean of xml5ever/src/serialize/mod.rs + rcdom's Serialize impl, tied "
